@@ -269,6 +269,30 @@ fn one_position<C: Autocomplete + Help>(sc: &Scenario, ff: &FaultFree, k: usize,
             }
         }
     }
+    // a random scenario may stop in the middle of an escape sequence (ESC [ seen, no final byte yet): everything up to the
+    // next final byte belongs to that sequence by definition, so close it before typing (a final byte that is no arrow)
+    {
+        let mut rd = RefDecoder::new();
+        let mut upto = sc.setup.clone();
+        for op in sc.target.as_ref().unwrap() {
+            upto.push(op.clone());
+            if Some(op) == failed_op.as_ref() {
+                break;
+            }
+        }
+        for op in &upto {
+            if let Op::Byte(b) = op {
+                let _ = rd.accept(*b);
+            }
+        }
+        if rd.in_csi() {
+            rep.count("c14.open_escape_sequence_closed_first");
+            if let Err(e) = rig.byte(b'~') {
+                fail(rep, "unusable-after-repair", sc.class, format!("the final byte of the open escape sequence returned {:?}", e));
+                return;
+            }
+        }
+    }
     let before = rig.editor();
     let line_before = String::from_utf8(before.line.clone()).unwrap_or_default();
     let chars: Vec<char> = line_before.chars().collect();
